@@ -183,11 +183,14 @@ class Adapter(EnvAdapter):
 
             def __call__(self, key):
                 j = key[1] % n
-                agents = Agent(id=jnp.arange(self.num_agents, dtype=jnp.int32), position=tab["apos"][j],
-                               level=tab["alvl"][j], loading=tab["aload"][j])
-                food = Food(id=jnp.arange(self.num_food, dtype=jnp.int32), position=tab["fpos"][j],
-                            level=tab["flvl"][j], eaten=tab["eaten"][j])
-                return State(key=key, step_count=tab["sc"][j], agents=agents, food_items=food)
+                # template: a state of the library's own generator with the same numbers of agents and food (any grid)
+                tpl = RandomGenerator(grid_size=8, fov=8, num_agents=self.num_agents, num_food=self.num_food,
+                                      max_agent_level=self.max_agent_level, force_coop=self.force_coop)(key)
+                agents = inject.state_like(tpl.agents, id=jnp.arange(self.num_agents, dtype=jnp.int32), position=tab["apos"][j],
+                                           level=tab["alvl"][j], loading=tab["aload"][j])
+                food = inject.state_like(tpl.food_items, id=jnp.arange(self.num_food, dtype=jnp.int32), position=tab["fpos"][j],
+                                         level=tab["flvl"][j], eaten=tab["eaten"][j])
+                return inject.state_like(tpl, key=key, step_count=tab["sc"][j], agents=agents, food_items=food)
 
         return TableGenerator()
 
